@@ -27,9 +27,18 @@ def make_byte_limit():
             root_limit = fresh_int(c, "root_byte_limit", 0)  # the limit of the root config (may differ)
             opened = []
 
+            other = {}
+
             class ChildCfg:
                 def get(self, key, section="core", default=None):
-                    return {"encoding": "utf-8", "large_file_skip_byte_limit": limit}.get(key, default)
+                    base = {"encoding": "utf-8", "large_file_skip_byte_limit": limit}
+                    if key in base:
+                        return base[key]
+                    # any OTHER setting the code consults is an independent symbolic integer: the decision must not depend on it
+                    if key not in other:
+                        other[key] = fresh_int(c, f"cfg_{key}", 0)
+                        c.witness("other_setting_consulted") if False else None
+                    return other[key]
 
                 def process_raw_file_for_config(self, raw, fname):
                     pass
@@ -72,12 +81,13 @@ def replay_byte_limit(cex):
     import tempfile
     size, limit, root_limit = int(cex.get("file_size", 0)), int(cex.get("byte_limit", 0)), int(cex.get("root_byte_limit", 0))
     size = min(size, 200000)
+    extra = "".join(f"{k[4:]} = {int(v)}\n" for k, v in cex.items() if k.startswith("cfg_"))
     d = os.path.realpath(tempfile.mkdtemp(prefix="c34_"))
     cwd = os.getcwd()
     try:
         os.makedirs(os.path.join(d, "sub"))
         open(os.path.join(d, ".sqlfluff"), "w").write(f"[sqlfluff]\ndialect = ansi\nlarge_file_skip_byte_limit = {root_limit}\n")
-        open(os.path.join(d, "sub", ".sqlfluff"), "w").write(f"[sqlfluff]\nlarge_file_skip_byte_limit = {limit}\n")
+        open(os.path.join(d, "sub", ".sqlfluff"), "w").write(f"[sqlfluff]\nlarge_file_skip_byte_limit = {limit}\n{extra}")
         p = os.path.join(d, "sub", "f.sql")
         open(p, "w").write(("select 1\n" * (size // 9 + 1))[:size])
         os.chdir(d)
@@ -88,7 +98,7 @@ def replay_byte_limit(cex):
         except SQLFluffSkipFile:
             skipped = True
         exp = limit != 0 and size > limit
-        return None if skipped == exp else (f"sub/f.sql of {size} bytes; root .sqlfluff limit {root_limit}, sub/.sqlfluff limit {limit}: "
+        return None if skipped == exp else (f"sub/f.sql of {size} bytes; root .sqlfluff limit {root_limit}, sub/.sqlfluff limit {limit} {extra.split()}: "
                                             f"skipped={skipped}, expected {exp} (the nearer config file governs)")
     finally:
         os.chdir(cwd)
